@@ -218,7 +218,7 @@ func ruleOPT1(p *Program) *RuleResult {
 }
 
 // valueNilGuarded: `at` is only reachable when v == nil.
-func valueNilGuarded(fn *ssa.Function, v ssa.Value, at ssa.Instruction) bool {
+func valueNilGuarded(fn *ssa.Function, v ssa.Value, at ssa.Instruction, succ ...*ssa.BasicBlock) bool {
 	for _, b := range fn.Blocks {
 		ifi, ok := b.Instrs[len(b.Instrs)-1].(*ssa.If)
 		if !ok {
@@ -235,7 +235,7 @@ func valueNilGuarded(fn *ssa.Function, v ssa.Value, at ssa.Instruction) bool {
 		if bo.Op == token.EQL {
 			nilEdge = 0
 		}
-		if edgeDominates(b, nilEdge, at.Block()) {
+		if domOrOnEdge(b, nilEdge, at, succ) {
 			return true
 		}
 	}
